@@ -105,6 +105,25 @@ def make_noacc(S, shape):
     return noacc
 
 
+def make_noacc2(S, shape1, shape2):
+    """decode a PDU of one shape, then a PDU of ANOTHER shape (longer or shorter list) into the same object"""
+    L1, L2 = S.blen(shape1), S.blen(shape2)
+
+    def noacc2(b1: bytes, b2: bytes) -> bool:
+        assume(len(b1) == L1)
+        assume(len(b2) == L2)
+        for c in S.wf(b1, shape1) + S.wf(b2, shape2):
+            assume(c)
+        dec = _decoder(S.dir)
+        m = dec.decode(bytes([S.fc]) + b1)
+        if m is None:
+            return False
+        m.decode(b2)
+        fresh = dec.decode(bytes([S.fc]) + b2)
+        return fields_equal(S.get(m, shape2), S.get(fresh, shape2)) and fields_equal(S.get(m, shape2), S.fields(b2, shape2))
+    return noacc2
+
+
 def obligations(tier):
     from harness import kernels
     T = 90 if tier == "quick" else 600
@@ -124,4 +143,14 @@ def obligations(tier):
                     wf = None
                 out.append(Obl("%s.%s" % (op, key), mk(S, shape), bounds=bounds, timeout=T, contracts=contracts, lemmas=lem,
                                whole_finding=wf))
+        # a second decode of a DIFFERENT shape (shorter / longer / empty list) into the same object
+        qs = S.shapes("quick")
+        if len(qs) >= 2:
+            small, big = min(qs, key=S.blen), max(qs, key=S.blen)
+            if S.blen(small) != S.blen(big):
+                contracts = ("bits",) if needs_bits(S) else ()
+                for a, b in ((big, small), (small, big)):
+                    out.append(Obl("noacc2.%s->%s" % (S.key(a), str(b).replace(" ", "")), make_noacc2(S, a, b), timeout=T,
+                                   contracts=contracts, lemmas=("K3",) if contracts else (), whole_finding=KF["noacc"].get(S.name),
+                                   bounds="%s PDU: decode shape %s, then shape %s into the same object; all field values symbolic" % (S.dir, a, b)))
     return out
